@@ -63,6 +63,12 @@ type c14Methods struct {
 	Tag string
 }
 
+func (m *c14Methods) NilSafe(a string) string {
+	if m == nil {
+		return "nil-receiver:" + a
+	}
+	return "receiver:" + a
+}
 func (m c14Methods) Join(a, b string) string       { return m.rec.note("Join", a, b) }
 func (m *c14Methods) PJoin(a string, b int) string { return m.rec.note("PJoin", a, b) }
 
@@ -130,6 +136,7 @@ func c14Vars(log *[]string, jfName string) jet.VarMap {
 	vars["nilv"] = reflect.Value{}
 	vars.Set("mm", map[string]interface{}{"k": "v"})
 	vars.Set("bv", []byte("  By Tes  "))
+	vars.Set("nilobj", (*c14Methods)(nil))
 	vars.Set("sv", "strvar")
 	vars.Set("iv", 7)
 	return vars
@@ -493,6 +500,11 @@ func genC14Builtin(t *rapid.T) c14Case {
 	js := func(v interface{}) string { b, _ := json.Marshal(v); return string(b) }
 	list := []bi{
 		{"{{ lower(" + q(s) + ") }}", esc(strings.ToLower(s))},
+		// a SafeWriter stage that is piped into AND carries arguments: x | w: a  is  w: x, a
+		{"{{ \"<x>\" | raw: \"<a>\" }}", "<x><a>"}, {"{{ raw: \"<x>\", \"<a>\" }}", "<x><a>"}, {"{{ \"<x>\" | unsafe(\"<a>\", \"b\") }}", "<x><a>b"},
+		{"{{ " + q(s) + " | safeHtml: " + q(p) + " }}", esc(s) + esc(p)}, {"{{ " + q(s) + " | raw(" + q(p) + ") }}", s + p},
+		// a method with a pointer receiver that tolerates nil, called on a nil pointer (Go calls it, so does the engine)
+		{"{{ nilobj.NilSafe(\"a\") }}", "nil-receiver:a"}, {"{{ \"a\" | nilobj.NilSafe }}", "nil-receiver:a"}, {"{{ nilobj.NilSafe: \"b\" }}", "nil-receiver:b"},
 		// arguments that are not strings but convert to the parameter type
 		{"{{ trimSpace(bv) }}", "By Tes"}, {"{{ bv | upper }}", "  BY TES  "}, {"{{ lower: bv }}", "  by tes  "}, {"{{ hasPrefix(bv, \"  By\") }}", "true"},
 		{"{{ json(" + q(s) + ") | upper }}", esc(strings.ToUpper(js(s)))},
